@@ -94,8 +94,11 @@ func labelClass(label string) string {
 	label = strings.Replace(label, "float-integral-big-", "float-integral-", 1)
 	label = strings.Replace(label, "empty-array-", "array-", 1)
 	label = strings.Replace(label, "empty-map-", "map-", 1)
-	if strings.HasSuffix(label, "-for-uint") {
-		label = strings.TrimSuffix(label, "uint") + "int"
+	// unsigned integers and time.Duration take the same integer path in go-zero
+	for _, suf := range []string{"uint", "duration"} {
+		if strings.HasSuffix(label, "-for-"+suf) && !strings.HasPrefix(label, "string-") {
+			label = strings.TrimSuffix(label, suf) + "int"
+		}
 	}
 	return label
 }
@@ -338,6 +341,33 @@ func shapeClass(t *tdesc) string {
 	return strings.Join(out, "+")
 }
 
+// mapKeyEqualsFieldName: some data key of a map in the document equals, ignoring case, a key
+// that addresses a struct field somewhere in the document.
+func mapKeyEqualsFieldName(d *node) bool {
+	fields, data := map[string]bool{}, map[string]bool{}
+	var walk func(n *node)
+	walk = func(n *node) {
+		for _, x := range n.arr {
+			walk(x)
+		}
+		for _, e := range n.ents {
+			if e.perm {
+				fields[strings.ToLower(e.key)] = true
+			} else {
+				data[strings.ToLower(e.key)] = true
+			}
+			walk(e.v)
+		}
+	}
+	walk(d)
+	for k := range data {
+		if fields[k] {
+			return true
+		}
+	}
+	return false
+}
+
 // ---------------------------------------------------------------- one (type, document) pair
 
 func runPair(c *kit.Case, t *tdesc, plain bool, scratch string, idx int) {
@@ -402,7 +432,9 @@ func runPair(c *kit.Case, t *tdesc, plain bool, scratch string, idx int) {
 						}
 						if len(bad) > 0 {
 							cls := labelClass(label)
-							if label == "well-typed" || label == "extra-key" || strings.HasPrefix(label, "missing-") {
+							if mapKeyEqualsFieldName(d0) {
+								cls += "/map-key-equals-a-field-name"
+							} else if label == "well-typed" || label == "extra-key" || strings.HasPrefix(label, "missing-") {
 								cls += "/" + shapeClass(t)
 							}
 							c.Viol("C17/keycase-"+kind+"/"+cls+"/"+strings.Join(bad, "+"),
